@@ -21,7 +21,7 @@ CHECKS = {
          'proof by refinement + model/code correspondence', '7 C06'),
  'C13': ('Theorems c13_*: == is equality of bit sequences whatever the sides; equal buffers have equal hash keys; a dict keyed by Buffers '
          '(CPython lookup: hash then ==) behaves as an association list keyed by bit sequences (found through any equal buffer). '
-         'c13_eq/hash_objects: the same for Buffer objects in any heap, comparing or hashing changes no object. '
+         'c13_eq/hash_objects: the same for Buffer objects in any heap, comparing or hashing changes no object. c13_match_mapping_bytes/_found: the byte-level match-mapping operator finds a value exactly when a key has its bits, whatever the sides. '
          'Correspondence + oracle on all pairs up to 5/7 bits x 4 side combinations, random long ones, dict/set probes, Buffer==bytes.',
          'proof by refinement + model/code correspondence', '7 C13'),
  'C16': ('Theorems c16_* about TWO models. (I) BufferHeap.v / SchcHeap.v / ParserHeap.v / ManagerHeap.v / ComputeHeap.v: the Buffer class, and compress / decompress with its compute stage / '
